@@ -86,32 +86,33 @@ Definition is_presig (p : prov) : bool :=          (* spawned, startWg.Done() st
 Definition is_alive (p : prov) : bool :=           (* spawned, stopWg.Done() still owed *)
   match p_pc p with GNone | GDone => false | _ => true end.
 
-Definition spawned_by (c : cpc) (j : nat) : bool :=
+Definition spawned_by (c : spc) (j : nat) : bool :=
   match c with
   | CIdle => false
   | CAddStop i | CAddStart i | CGo i => j <? i
   | _ => true
   end.
-Definition after_start (c : cpc) : bool :=
-  match c with CRunning | CStopCall _ | CStopDrain _ | CStopWait | CStopped => true | _ => false end.
-Definition in_start (c : cpc) : bool :=
+Definition after_start (c : spc) : bool :=
+  match c with CRunning => true | _ => false end.
+Definition launched (c : spc) : bool :=                (* Start's loop is over: every provider goroutine exists *)
+  match c with CStartWait | CRunning => true | _ => false end.
+Definition in_start (c : spc) : bool :=
   match c with CAddStop _ | CAddStart _ | CGo _ | CStartWait => true | _ => false end.
-Definition in_stop (c : cpc) : bool :=
-  match c with CStopCall _ | CStopDrain _ | CStopWait => true | _ => false end.
-Definition shut_by (c : cpc) (j : nat) : bool :=
-  match c with
+Definition in_stop (t : tpc) : bool :=
+  match t with CStopCall _ | CStopDrain _ | CStopWait => true | _ => false end.
+Definition shut_by (t : tpc) (j : nat) : bool :=
+  match t with
   | CStopCall i => j <? i
   | CStopDrain i => j <=? i
   | CStopWait | CStopped => true
   | _ => false
   end.
-Definition is_cgo (c : cpc) : bool := match c with CGo _ => true | _ => false end.
-Definition is_mid (c : cpc) : bool := match c with CAddStart _ | CGo _ => true | _ => false end.
-Definition idx_ok (c : cpc) (n : nat) : Prop :=
-  match c with
-  | CAddStop i | CAddStart i | CGo i | CStopCall i | CStopDrain i => i < n
-  | _ => True
-  end.
+Definition is_cgo (c : spc) : bool := match c with CGo _ => true | _ => false end.
+Definition is_mid (c : spc) : bool := match c with CAddStart _ | CGo _ => true | _ => false end.
+Definition idx_ok (c : spc) (t : tpc) (n : nat) : Prop :=
+  match c with CAddStop i | CAddStart i | CGo i => i < n | _ => True end /\
+  match t with CStopCall i | CStopDrain i => i < n | _ => True end /\
+  (t = TIdle \/ launched c = true).                    (* Stop is only ever issued once everything was launched *)
 
 Definition bound_of (p : prov) : bool :=
   match p_pc p with
@@ -122,21 +123,21 @@ Definition bound_of (p : prov) : bool :=
   end.
 
 (* what must hold of provider j when the caller is at c *)
-Definition local (c : cpc) (j : nat) (p : prov) : Prop :=
+Definition local (c : spc) (t : tpc) (j : nat) (p : prov) : Prop :=
   pc_eqb (p_pc p) GNone = negb (spawned_by c j) /\
   (after_start c = true -> pre_signal (p_pc p) = false) /\
-  p_shut p = shut_by c j /\
+  p_shut p = shut_by t j /\
   p_sdone p = (if pre_signal (p_pc p) then 0 else 1) /\
   p_bound p = bound_of p /\
   (p_pc p = GListened -> p_kind p = KGrpc) /\
-  (c = CStopped -> p_pc p = GDone).
+  (t = CStopped -> p_pc p = GDone).
 
 Record Inv (kinds : list kind) (w0 : Z) (s : st) : Prop := {
   inv_kinds : map p_kind (s_provs s) = kinds;
-  inv_local : forall j p, nth_error (s_provs s) j = Some p -> local (s_caller s) j p;
-  inv_startwg : s_startwg s = (cnt is_presig (s_provs s) + b2z (is_cgo (s_caller s)))%Z;
-  inv_stopwg : s_stopwg s = (w0 + cnt is_alive (s_provs s) + b2z (is_mid (s_caller s)))%Z;
-  inv_idx : idx_ok (s_caller s) (length (s_provs s))
+  inv_local : forall j p, nth_error (s_provs s) j = Some p -> local (s_start s) (s_stop s) j p;
+  inv_startwg : s_startwg s = (cnt is_presig (s_provs s) + b2z (is_cgo (s_start s)))%Z;
+  inv_stopwg : s_stopwg s = (w0 + cnt is_alive (s_provs s) + b2z (is_mid (s_start s)))%Z;
+  inv_idx : idx_ok (s_start s) (s_stop s) (length (s_provs s))
 }.
 
 Ltac bcases :=
@@ -162,7 +163,7 @@ Proof.
     induction kinds; simpl; auto.
   - assert (E : cnt is_alive (map init_prov kinds) = 0%Z); [|rewrite E; lia].
     induction kinds; simpl; auto.
-  - exact I.
+  - unfold idx_ok. simpl. auto.
 Qed.
 
 Section Proofs.
@@ -177,7 +178,7 @@ Section Proofs.
     Inv kinds w0 s ->
     nth_error (s_provs s) i = Some p ->
     p_kind p' = p_kind p ->
-    local (s_caller s) i p' ->
+    local (s_start s) (s_stop s) i p' ->
     dstart = (b2z (is_presig p') - b2z (is_presig p))%Z ->
     dstop = (b2z (is_alive p') - b2z (is_alive p))%Z ->
     Inv kinds w0 (add_stopwg dstop (add_startwg dstart (with_provs (upd_nth i (fun _ => p') (s_provs s)) s))).
@@ -199,34 +200,41 @@ Section Proofs.
   Lemma add0_stop s : add_stopwg 0 s = s.
   Proof. destruct s; unfold add_stopwg; simpl. f_equal. lia. Qed.
 
+  Ltac idx_solve :=
+    unfold idx_ok, launched, next_start, next_stop in *; simpl in *;
+    repeat match goal with
+    | |- context [?a <? ?b] => destruct (Nat.ltb_spec a b); simpl
+    end; intuition (try discriminate; try congruence; try lia; auto).
+
   Ltac local_solve :=
     unfold local, bound_of, is_presig, is_alive, pre_signal in *; simpl in *;
     intuition (try discriminate; try congruence; auto).
 
   Lemma step_inv kinds w0 l s s' : (0 <= w0)%Z -> Inv kinds w0 s -> step l s = Some s' -> Inv kinds w0 s'.
   Proof.
-    intros Hw0 HI Hst. pose proof HI as [Hk Hl Hs Ht Hi].
+    intros Hw0 HI Hst. pose proof HI as [Hk Hl Hs Ht Hi]. pose proof Hi as (Hi1 & Hi2 & Hph).
     destruct l; simpl in Hst.
     - (* LCallStart *)
-      destruct (s_caller s) eqn:C; try discriminate. injection Hst as <-.
+      destruct (s_start s) eqn:C; try discriminate. injection Hst as <-.
       constructor; simpl; [first [exact Hk | reflexivity]| | | |].
-      + intros j p Hj. specialize (Hl j p Hj). try rewrite C in Hl.
-        destruct (Nat.ltb_spec 0 (length (s_provs s))); unfold local in *; simpl in *;
-          intuition (try discriminate; auto).
-        pose proof (nth_error_lt _ _ _ Hj). lia.
+      + intros j p Hj. specialize (Hl j p Hj). pose proof (nth_error_lt _ _ _ Hj) as Hjl.
+        try rewrite C in Hl; try rewrite T in Hl; try rewrite C; try rewrite T.
+        unfold local, launched in *; simpl in *; bcases; intuition (try discriminate; try congruence; try lia; auto).
       + rewrite Hs; try rewrite C. destruct (0 <? length (s_provs s)); reflexivity.
       + rewrite Ht; try rewrite C. destruct (0 <? length (s_provs s)); reflexivity.
-      + destruct (Nat.ltb_spec 0 (length (s_provs s))); simpl; auto.
+      + idx_solve.
     - (* LCallStop *)
-      destruct (s_caller s) eqn:C; try discriminate. injection Hst as <-.
+      destruct (s_stop s) eqn:T; try discriminate.
+      assert (Hl' : launched (s_start s) = true) by (destruct (s_start s); try discriminate; reflexivity).
+      assert (E : s' = with_stop (if 0 <? length (s_provs s) then CStopCall 0 else CStopWait) s)
+        by (destruct (s_start s); try discriminate; injection Hst as <-; reflexivity).
+      subst s'. clear Hst.
       constructor; simpl; [first [exact Hk | reflexivity]| | | |].
-      + intros j p Hj. specialize (Hl j p Hj). try rewrite C in Hl.
-        destruct (Nat.ltb_spec 0 (length (s_provs s))); unfold local in *; simpl in *;
-          intuition (try discriminate; auto).
-        pose proof (nth_error_lt _ _ _ Hj). lia.
-      + rewrite Hs; try rewrite C. destruct (0 <? length (s_provs s)); reflexivity.
-      + rewrite Ht; try rewrite C. destruct (0 <? length (s_provs s)); reflexivity.
-      + destruct (Nat.ltb_spec 0 (length (s_provs s))); simpl; auto.
+      + intros j p Hj. specialize (Hl j p Hj). pose proof (nth_error_lt _ _ _ Hj) as Hjl.
+        unfold local in *; simpl in *; bcases; intuition (try discriminate; try congruence; try lia; auto).
+      + exact Hs.
+      + exact Ht.
+      + idx_solve.
     - (* LCtxExpire *)
       injection Hst as <-. constructor; simpl; auto.
     - (* LReqBegin *)
@@ -248,21 +256,25 @@ Section Proofs.
       + destruct p; unfold is_presig; simpl; lia.
       + destruct p; unfold is_alive; simpl; lia.
     - (* LAddStop *)
-      destruct (s_caller s) eqn:C; try discriminate. injection Hst as <-.
+      destruct (s_start s) eqn:C; try discriminate. injection Hst as <-.
       constructor; simpl; [first [exact Hk | reflexivity]| | | |].
-      + intros j p Hj. specialize (Hl j p Hj). try rewrite C in Hl. unfold local in *; simpl in *. intuition discriminate.
+      + intros j p Hj. specialize (Hl j p Hj). pose proof (nth_error_lt _ _ _ Hj) as Hjl.
+        try rewrite C in Hl; try rewrite T in Hl; try rewrite C; try rewrite T.
+        unfold local, launched in *; simpl in *; bcases; intuition (try discriminate; try congruence; try lia; auto).
       + rewrite Hs; try rewrite C. reflexivity.
       + rewrite Ht; try rewrite C. simpl. lia.
-      + try rewrite C in Hi. exact Hi.
+      + idx_solve.
     - (* LAddStart *)
-      destruct (s_caller s) eqn:C; try discriminate. injection Hst as <-.
+      destruct (s_start s) eqn:C; try discriminate. injection Hst as <-.
       constructor; simpl; [first [exact Hk | reflexivity]| | | |].
-      + intros j p Hj. specialize (Hl j p Hj). try rewrite C in Hl. unfold local in *; simpl in *. intuition discriminate.
+      + intros j p Hj. specialize (Hl j p Hj). pose proof (nth_error_lt _ _ _ Hj) as Hjl.
+        try rewrite C in Hl; try rewrite T in Hl; try rewrite C; try rewrite T.
+        unfold local, launched in *; simpl in *; bcases; intuition (try discriminate; try congruence; try lia; auto).
       + rewrite Hs; try rewrite C. simpl. lia.
       + rewrite Ht; try rewrite C. reflexivity.
-      + try rewrite C in Hi. exact Hi.
+      + idx_solve.
     - (* LGo *)
-      destruct (s_caller s) eqn:C; try discriminate.
+      destruct (s_start s) eqn:C; try discriminate.
       unfold step_prov in Hst. destruct (nth_error (s_provs s) i) as [p|] eqn:N; [|discriminate].
       destruct (p_pc p) eqn:PC; try discriminate. injection Hst as <-.
       try rewrite C in *. simpl in Hi.
@@ -282,9 +294,9 @@ Section Proofs.
         destruct (S i <? length (s_provs s)); simpl; lia.
       + rewrite (cnt_upd _ _ _ _ _ N), Ht. unfold next_start, is_alive. simpl. rewrite PC.
         destruct (S i <? length (s_provs s)); simpl; lia.
-      + rewrite length_upd_nth. unfold next_start. destruct (Nat.ltb_spec (S i) (length (s_provs s))); simpl; auto.
+      + rewrite length_upd_nth. idx_solve.
     - (* LStartReturn *)
-      destruct (s_caller s) eqn:C; try discriminate.
+      destruct (s_start s) eqn:C; try discriminate.
       destruct (Z.eqb_spec (s_startwg s) 0) as [Z0|]; [|discriminate]. injection Hst as <-.
       try rewrite C in *. simpl in Hs.
       assert (Hz : cnt is_presig (s_provs s) = 0%Z) by lia.
@@ -294,7 +306,7 @@ Section Proofs.
         destruct (p_pc p); simpl in *; intuition (try discriminate; auto).
       + lia.
       + simpl in Ht. lia.
-      + exact I.
+      + idx_solve.
     - (* LListen *)
       unfold step_prov in Hst. destruct (nth_error (s_provs s) i) as [p|] eqn:N; [|discriminate].
       destruct (p_kind p) eqn:K; try discriminate. destruct (p_pc p) eqn:PC; try discriminate.
@@ -346,7 +358,7 @@ Section Proofs.
       + unfold is_presig; simpl. rewrite PC. reflexivity.
       + unfold is_alive; simpl. rewrite PC. reflexivity.
     - (* LStopCall *)
-      destruct (s_caller s) eqn:C; try discriminate.
+      destruct (s_stop s) eqn:C; try discriminate.
       unfold step_prov in Hst. destruct (nth_error (s_provs s) i) as [p|] eqn:N; [|discriminate].
       injection Hst as <-. try rewrite C in *. simpl in Hi.
       set (p' := set_shut (if pc_eqb (p_pc p) GServing then set_bound false p else p)).
@@ -363,9 +375,9 @@ Section Proofs.
             bcases; intuition (try discriminate; try lia; auto).
       + rewrite (cnt_upd _ _ _ _ _ N), Hs. unfold is_presig. rewrite Hpc. simpl. lia.
       + rewrite (cnt_upd _ _ _ _ _ N), Ht. unfold is_alive. rewrite Hpc. simpl. lia.
-      + rewrite length_upd_nth. exact Hi.
+      + rewrite length_upd_nth. idx_solve.
     - (* LForce *)
-      destruct (s_caller s) eqn:C; try discriminate.
+      destruct (s_stop s) eqn:C; try discriminate.
       unfold step_prov in Hst. destruct (nth_error (s_provs s) i) as [p|] eqn:N; [|discriminate].
       destruct (p_kind p) eqn:K; try discriminate. destruct (p_inflight p) eqn:F; try discriminate.
       destruct (s_ctx s); [|discriminate]. injection Hst as <-.
@@ -375,7 +387,7 @@ Section Proofs.
       + destruct p; unfold is_presig; simpl; lia.
       + destruct p; unfold is_alive; simpl; lia.
     - (* LStopProvReturn *)
-      destruct (s_caller s) eqn:C; try discriminate.
+      destruct (s_stop s) eqn:C; try discriminate.
       unfold step_prov in Hst. destruct (nth_error (s_provs s) i) as [p|] eqn:N; [|discriminate].
       destruct (drain_ret p (s_ctx s)); [|discriminate]. injection Hst as <-.
       try rewrite C in *. simpl in Hi.
@@ -391,21 +403,24 @@ Section Proofs.
         destruct (S i <? length (s_provs s)); simpl; lia.
       + rewrite (cnt_upd _ _ _ _ _ N), Ht. unfold next_stop.
         destruct (S i <? length (s_provs s)); simpl; lia.
-      + rewrite length_upd_nth. unfold next_stop. destruct (Nat.ltb_spec (S i) (length (s_provs s))); simpl; auto.
+      + rewrite length_upd_nth. idx_solve.
     - (* LStopReturn *)
-      destruct (s_caller s) eqn:C; try discriminate.
+      destruct (s_stop s) eqn:C; try discriminate.
       destruct (Z.eqb_spec (s_stopwg s) 0) as [Z0|]; [|discriminate]. injection Hst as <-.
-      try rewrite C in *. simpl in Ht.
+      assert (Hla : launched (s_start s) = true) by (destruct Hph as [E|E]; [discriminate|exact E]).
+      assert (Hmid : is_mid (s_start s) = false) by (destruct (s_start s); try discriminate; reflexivity).
+      rewrite Hmid in Ht. simpl in Ht.
       constructor; simpl; [first [exact Hk | reflexivity]| | | |].
       + intros j p Hj. specialize (Hl j p Hj).
         pose proof (cnt_nonneg is_alive (s_provs s)) as Hnn.
         assert (Hz : cnt is_alive (s_provs s) = 0%Z) by lia.
         pose proof (cnt_zero_all _ _ Hz j p Hj) as Hp.
-        unfold local, is_alive in *; simpl in *.
+        assert (Hsp : spawned_by (s_start s) j = true) by (destruct (s_start s); try discriminate; reflexivity).
+        unfold local, is_alive in *; simpl in *. rewrite Hsp in *.
         destruct (p_pc p); simpl in *; intuition (try discriminate; auto).
-      + simpl in Hs. lia.
-      + lia.
-      + exact I.
+      + exact Hs.
+      + rewrite Hmid. simpl. lia.
+      + idx_solve.
   Qed.
 
   Lemma run_inv kinds w0 ls s s' :
@@ -434,11 +449,11 @@ Section Proofs.
   Proof.
     intros Hw Hr. destruct (reachable_inv _ _ _ Hw Hr) as [_ _ Hs Ht _].
     pose proof (cnt_nonneg is_presig (s_provs s)). pose proof (cnt_nonneg is_alive (s_provs s)).
-    rewrite Hs, Ht. destruct (is_cgo (s_caller s)), (is_mid (s_caller s)); simpl; lia.
+    rewrite Hs, Ht. destruct (is_cgo (s_start s)), (is_mid (s_start s)); simpl; lia.
   Qed.
 
   Lemma start_returned_safe kinds w0 s :
-    (0 <= w0)%Z -> reachable kinds w0 s -> after_start (s_caller s) = true ->
+    (0 <= w0)%Z -> reachable kinds w0 s -> after_start (s_start s) = true ->
     s_startwg s = 0%Z /\
     forall j p, nth_error (s_provs s) j = Some p -> p_sdone p = 1 /\ pre_signal (p_pc p) = false.
   Proof.
@@ -447,23 +462,25 @@ Section Proofs.
     { intros j p Hj. destruct (Hl j p Hj) as (_ & H2 & _ & H4 & _). specialize (H2 Ha). rewrite H2 in H4. auto. }
     split; [|exact Hp].
     rewrite Hs. rewrite cnt_all_false.
-    - destruct (s_caller s); simpl in *; try discriminate; reflexivity.
+    - destruct (s_start s); simpl in *; try discriminate; reflexivity.
     - intros j p Hj. destruct (Hp j p Hj) as (_ & H). unfold is_presig. destruct (p_pc p); simpl in *; congruence.
   Qed.
 
   Lemma stop_returned_safe kinds w0 s :
-    (0 <= w0)%Z -> reachable kinds w0 s -> s_caller s = CStopped ->
+    (0 <= w0)%Z -> reachable kinds w0 s -> s_stop s = CStopped ->
     s_stopwg s = w0 /\
     forall j p, nth_error (s_provs s) j = Some p ->
       p_pc p = GDone /\ p_bound p = false /\ p_shut p = true /\ p_sdone p = 1.
   Proof.
-    intros Hw Hr Hc. destruct (reachable_inv _ _ _ Hw Hr) as [_ Hl _ Ht _].
+    intros Hw Hr Hc. destruct (reachable_inv _ _ _ Hw Hr) as [_ Hl _ Ht (_ & _ & Hph)].
+    assert (Hmid : is_mid (s_start s) = false).
+    { destruct Hph as [E|E]; [congruence|]. destruct (s_start s); try discriminate; reflexivity. }
     assert (Hp : forall j p, nth_error (s_provs s) j = Some p ->
                  p_pc p = GDone /\ p_bound p = false /\ p_shut p = true /\ p_sdone p = 1).
     { intros j p Hj. destruct (Hl j p Hj) as (_ & _ & H3 & H4 & H5 & _ & H7).
       specialize (H7 Hc). rewrite Hc in H3. unfold bound_of in H5. rewrite H7 in *. simpl in *. auto. }
     split; [|exact Hp].
-    rewrite Ht, Hc. rewrite cnt_all_false; [simpl; lia|].
+    rewrite Ht, Hmid. rewrite cnt_all_false; [simpl; lia|].
     intros j p Hj. destruct (Hp j p Hj) as (H & _). unfold is_alive. rewrite H. reflexivity.
   Qed.
 
@@ -484,99 +501,105 @@ Section Proofs.
   (* ---------- termination measure ---------- *)
   Definition rank (pc : gpc) : nat :=
     match pc with GNone => 6 | GSpawned => 5 | GListened => 4 | GSignalled => 3 | GServing => 2 | GReturned => 1 | GDone => 0 end.
-  Definition crank (n : nat) (c : cpc) : nat :=
+  Definition srank (n : nat) (c : spc) : nat :=
     match c with
-    | CIdle => 5 * n + 6
-    | CAddStop i => 3 * (n - i) + 2 * n + 4
-    | CAddStart i => 3 * (n - i) - 1 + 2 * n + 4
-    | CGo i => 3 * (n - i) - 2 + 2 * n + 4
-    | CStartWait => 2 * n + 4
-    | CRunning => 2 * n + 3
+    | CIdle => 3 * n + 2
+    | CAddStop i => 3 * (n - i) + 1
+    | CAddStart i => 3 * (n - i)
+    | CGo i => 3 * (n - i) - 1
+    | CStartWait => 1
+    | CRunning => 0
+    end.
+  Definition trank (n : nat) (t : tpc) : nat :=
+    match t with
+    | TIdle => 2 * n + 3
     | CStopCall i => 2 * (n - i) + 2
     | CStopDrain i => 2 * (n - i) + 1
     | CStopWait => 1
     | CStopped => 0
     end.
   Definition pweight (p : prov) : nat := rank (p_pc p) + p_inflight p.
-  Definition measure (s : st) : nat := crank (length (s_provs s)) (s_caller s) + sumn pweight (s_provs s).
+  Definition measure (s : st) : nat :=
+    srank (length (s_provs s)) (s_start s) + trank (length (s_provs s)) (s_stop s) + sumn pweight (s_provs s).
 
   (* labels that make progress: everything the server's own goroutines do, and requests finishing *)
   Definition progress (l : label) : bool :=
     match l with LReqEnd _ => true | _ => negb (is_env l) end.
 
-  Lemma measure_prov s i p p' c' :
+  Lemma measure_prov s i p p' s' :
     nth_error (s_provs s) i = Some p -> pweight p' < pweight p ->
-    crank (length (s_provs s)) c' <= crank (length (s_provs s)) (s_caller s) ->
-    forall s', s_provs s' = upd_nth i (fun _ => p') (s_provs s) -> s_caller s' = c' ->
+    s_provs s' = upd_nth i (fun _ => p') (s_provs s) ->
+    srank (length (s_provs s)) (s_start s') + trank (length (s_provs s)) (s_stop s')
+      <= srank (length (s_provs s)) (s_start s) + trank (length (s_provs s)) (s_stop s) ->
     measure s' < measure s.
   Proof.
-    intros N Hw Hc s' Hp Hcl. unfold measure. rewrite Hp, Hcl, length_upd_nth.
+    intros N Hw Hp Hc. unfold measure. rewrite Hp, length_upd_nth.
     pose proof (sumn_upd pweight i (fun _ => p') _ _ N). lia.
   Qed.
 
   Lemma step_measure kinds w0 l s s' :
     Inv kinds w0 s -> progress l = true -> step l s = Some s' -> measure s' < measure s.
   Proof.
-    intros [_ _ _ _ Hi] Hp Hst. destruct l; simpl in Hp; try discriminate; simpl in Hst.
+    intros [_ _ _ _ (Hi1 & Hi2 & _)] Hp Hst. destruct l; simpl in Hp; try discriminate; simpl in Hst.
     - (* LReqEnd *)
       unfold step_prov in Hst. destruct (nth_error (s_provs s) i) as [p|] eqn:N; [|discriminate].
       destruct (p_inflight p) as [|k] eqn:F; [discriminate|]. injection Hst as <-.
-      eapply (measure_prov s i p (set_inflight k p) (s_caller s)); eauto. unfold pweight; simpl. lia.
-    - destruct (s_caller s) eqn:C; try discriminate. injection Hst as <-.
-      unfold measure; simpl; rewrite C; simpl in Hi; unfold crank; lia.
-    - destruct (s_caller s) eqn:C; try discriminate. injection Hst as <-.
-      unfold measure; simpl; rewrite C; simpl in Hi; unfold crank; lia.
-    - destruct (s_caller s) eqn:C; try discriminate.
+      eapply (measure_prov s i p (set_inflight k p)); eauto. unfold pweight; simpl. lia.
+    - destruct (s_start s) eqn:C; try discriminate. injection Hst as <-.
+      unfold measure; simpl; rewrite C; unfold srank; lia.
+    - destruct (s_start s) eqn:C; try discriminate. injection Hst as <-.
+      unfold measure; simpl; rewrite C; unfold srank; lia.
+    - destruct (s_start s) eqn:C; try discriminate.
       unfold step_prov in Hst. destruct (nth_error (s_provs s) i) as [p|] eqn:N; [|discriminate].
-      destruct (p_pc p) eqn:PC; try discriminate. injection Hst as <-. simpl in Hi.
-      eapply (measure_prov s i p (set_pc GSpawned p) (next_start (length (s_provs s)) i)); eauto; simpl.
+      destruct (p_pc p) eqn:PC; try discriminate. injection Hst as <-.
+      eapply (measure_prov s i p (set_pc GSpawned p)); eauto; simpl.
       + unfold pweight; simpl. rewrite PC. simpl. lia.
       + rewrite C. unfold next_start. destruct (Nat.ltb_spec (S i) (length (s_provs s))); simpl; lia.
-    - destruct (s_caller s) eqn:C; try discriminate.
+    - destruct (s_start s) eqn:C; try discriminate.
       destruct (Z.eqb (s_startwg s) 0); [|discriminate]. injection Hst as <-.
-      unfold measure; simpl; rewrite C; unfold crank; lia.
+      unfold measure; simpl; rewrite C; unfold srank; lia.
     - unfold step_prov in Hst. destruct (nth_error (s_provs s) i) as [p|] eqn:N; [|discriminate].
       destruct (p_kind p); try discriminate. destruct (p_pc p) eqn:PC; try discriminate. injection Hst as <-.
-      eapply (measure_prov s i p (set_bound true (set_pc GListened p)) (s_caller s)); eauto; simpl. unfold pweight; simpl. rewrite PC. simpl. lia.
+      eapply (measure_prov s i p (set_bound true (set_pc GListened p))); eauto; simpl. unfold pweight; simpl. rewrite PC. simpl. lia.
     - unfold step_prov in Hst. destruct (nth_error (s_provs s) i) as [p|] eqn:N; [|discriminate].
       assert (Hpc : p_pc p = GSpawned \/ p_pc p = GListened) by (destruct (p_kind p), (p_pc p); try discriminate; auto).
       assert (Hs' : s' = add_startwg (-1) (with_provs (upd_nth i (fun _ => inc_sdone (set_pc GSignalled p)) (s_provs s)) s)).
       { destruct (p_kind p), (p_pc p); try discriminate; inversion Hst; reflexivity. }
-      subst s'. eapply (measure_prov s i p (inc_sdone (set_pc GSignalled p)) (s_caller s)); eauto; simpl.
+      subst s'. eapply (measure_prov s i p (inc_sdone (set_pc GSignalled p))); eauto; simpl.
       unfold pweight; simpl. destruct Hpc as [-> | ->]; simpl; lia.
     - unfold step_prov in Hst. destruct (nth_error (s_provs s) i) as [p|] eqn:N; [|discriminate].
       destruct (p_pc p) eqn:PC; try discriminate.
       destruct (p_shut p); injection Hst as <-.
-      + eapply (measure_prov s i p (set_bound false (set_pc GReturned p)) (s_caller s)); eauto; simpl.
+      + eapply (measure_prov s i p (set_bound false (set_pc GReturned p))); eauto; simpl.
         unfold pweight; simpl; rewrite PC; simpl; lia.
-      + eapply (measure_prov s i p (set_bound true (set_pc GServing p)) (s_caller s)); eauto; simpl.
+      + eapply (measure_prov s i p (set_bound true (set_pc GServing p))); eauto; simpl.
         unfold pweight; simpl; rewrite PC; simpl; lia.
     - unfold step_prov in Hst. destruct (nth_error (s_provs s) i) as [p|] eqn:N; [|discriminate].
       destruct (p_pc p) eqn:PC; try discriminate. destruct (serve_ret p); [|discriminate]. injection Hst as <-.
-      eapply (measure_prov s i p (set_bound false (set_pc GReturned p)) (s_caller s)); eauto; simpl. unfold pweight; simpl. rewrite PC. simpl. lia.
+      eapply (measure_prov s i p (set_bound false (set_pc GReturned p))); eauto; simpl. unfold pweight; simpl. rewrite PC. simpl. lia.
     - unfold step_prov in Hst. destruct (nth_error (s_provs s) i) as [p|] eqn:N; [|discriminate].
       destruct (p_pc p) eqn:PC; try discriminate. injection Hst as <-.
-      eapply (measure_prov s i p (set_pc GDone p) (s_caller s)); eauto; simpl. unfold pweight; simpl. rewrite PC. simpl. lia.
-    - destruct (s_caller s) eqn:C; try discriminate.
+      eapply (measure_prov s i p (set_pc GDone p)); eauto; simpl. unfold pweight; simpl. rewrite PC. simpl. lia.
+    - destruct (s_stop s) eqn:C; try discriminate.
       unfold step_prov in Hst. destruct (nth_error (s_provs s) i) as [p|] eqn:N; [|discriminate].
-      injection Hst as <-. simpl in Hi. unfold measure; simpl. rewrite length_upd_nth, C.
+      injection Hst as <-. unfold measure; simpl. rewrite length_upd_nth, C.
       set (p' := set_shut (if pc_eqb (p_pc p) GServing then set_bound false p else p)).
       assert (Hpw : pweight p' = pweight p) by (unfold p', pweight; destruct (pc_eqb (p_pc p) GServing); reflexivity).
       pose proof (sumn_upd pweight i (fun _ => p') _ _ N). simpl. lia.
-    - destruct (s_caller s) eqn:C; try discriminate.
+    - destruct (s_stop s) eqn:C; try discriminate.
       unfold step_prov in Hst. destruct (nth_error (s_provs s) i) as [p|] eqn:N; [|discriminate].
       destruct (p_kind p); try discriminate. destruct (p_inflight p) eqn:F; try discriminate.
       destruct (s_ctx s); [|discriminate]. injection Hst as <-.
-      eapply (measure_prov s i p (set_inflight 0 p) (s_caller s)); eauto; simpl. unfold pweight; simpl. lia.
-    - destruct (s_caller s) eqn:C; try discriminate.
+      eapply (measure_prov s i p (set_inflight 0 p)); eauto; simpl. unfold pweight; simpl. lia.
+    - destruct (s_stop s) eqn:C; try discriminate.
       unfold step_prov in Hst. destruct (nth_error (s_provs s) i) as [p|] eqn:N; [|discriminate].
-      destruct (drain_ret p (s_ctx s)); [|discriminate]. injection Hst as <-. simpl in Hi.
+      destruct (drain_ret p (s_ctx s)); [|discriminate]. injection Hst as <-.
       unfold measure; simpl. rewrite length_upd_nth, C.
       pose proof (sumn_upd pweight i (fun _ => p) _ _ N).
       unfold next_stop. destruct (Nat.ltb_spec (S i) (length (s_provs s))); simpl; lia.
-    - destruct (s_caller s) eqn:C; try discriminate.
+    - destruct (s_stop s) eqn:C; try discriminate.
       destruct (Z.eqb (s_stopwg s) 0); [|discriminate]. injection Hst as <-.
-      unfold measure; simpl; rewrite C; unfold crank; lia.
+      unfold measure; simpl; rewrite C; unfold trank; lia.
   Qed.
 End Proofs.
 
@@ -595,7 +618,7 @@ Section Liveness.
 
   Definition enabled (s : st) : Prop := exists l, is_env l = false /\ step l s <> None.
   Definition blocked_on_inflight (s : st) : Prop :=
-    exists i p, s_caller s = CStopDrain i /\ nth_error (s_provs s) i = Some p /\
+    exists i p, s_stop s = CStopDrain i /\ nth_error (s_provs s) i = Some p /\
                 0 < p_inflight p /\ s_ctx s = false.
 
   (* a provider that still owes startWg.Done() can take a step *)
@@ -610,9 +633,9 @@ Section Liveness.
     - exists (LSignal j). split; [reflexivity|]. simpl. unfold step_prov. rewrite Hj, (H6 eq_refl), PC. discriminate.
   Qed.
 
-  Lemma start_not_stuck kinds w0 s : Inv kinds w0 s -> in_start (s_caller s) = true -> enabled s.
+  Lemma start_not_stuck kinds w0 s : Inv kinds w0 s -> in_start (s_start s) = true -> enabled s.
   Proof.
-    intros HI Hc. pose proof HI as [_ Hl Hs _ Hi]. destruct (s_caller s) eqn:C; try discriminate.
+    intros HI Hc. pose proof HI as [_ Hl Hs _ (Hi & _ & _)]. destruct (s_start s) eqn:C; try discriminate.
     - exists LAddStop. split; [reflexivity|]. simpl. rewrite C. discriminate.
     - exists LAddStart. split; [reflexivity|]. simpl. rewrite C. discriminate.
     - simpl in Hi. destruct (nth_error (s_provs s) i) as [p|] eqn:N.
@@ -628,9 +651,9 @@ Section Liveness.
   Qed.
 
   Lemma stop_not_stuck kinds s :
-    Inv kinds 0%Z s -> in_stop (s_caller s) = true -> enabled s \/ blocked_on_inflight s.
+    Inv kinds 0%Z s -> in_stop (s_stop s) = true -> enabled s \/ blocked_on_inflight s.
   Proof.
-    intros HI Hc. pose proof HI as [_ Hl _ Ht Hi]. destruct (s_caller s) eqn:C; try discriminate.
+    intros HI Hc. pose proof HI as [_ Hl _ Ht (_ & Hi & Hph)]. destruct (s_stop s) eqn:C; try discriminate.
     - (* CStopCall *)
       left. simpl in Hi. destruct (nth_error (s_provs s) i) as [p|] eqn:N.
       2:{ apply nth_error_None in N. lia. }
@@ -650,10 +673,13 @@ Section Liveness.
     - (* CStopWait *)
       left. destruct (Z.eqb_spec (s_stopwg s) 0) as [Z0|Zn].
       + exists LStopReturn. split; [reflexivity|]. simpl. rewrite C, Z0. discriminate.
-      + simpl in Ht. pose proof (cnt_nonneg is_alive (s_provs s)).
+      + assert (Hmid : is_mid (s_start s) = false).
+        { destruct Hph as [E|E]; [discriminate|]. destruct (s_start s); try discriminate; reflexivity. }
+        rewrite Hmid in Ht. simpl in Ht. pose proof (cnt_nonneg is_alive (s_provs s)).
         destruct (cnt_pos_exists is_alive (s_provs s)) as (j & p & Hj & Hp); [lia|].
-        destruct (Hl j p Hj) as (_ & H2 & H3 & _). simpl in H2, H3. specialize (H2 eq_refl).
-        unfold is_alive in Hp. destruct (p_pc p) eqn:PC; try discriminate.
+        destruct (Hl j p Hj) as (_ & _ & H3 & _). simpl in H3.
+        destruct (is_presig p) eqn:PS; [eapply presig_enabled; eauto|].
+        unfold is_alive in Hp. unfold is_presig in PS. destruct (p_pc p) eqn:PC; try discriminate.
         * exists (LServe j). split; [reflexivity|]. simpl. unfold step_prov. rewrite Hj, PC. destruct (p_shut p); discriminate.
         * exists (LServeReturn j). split; [reflexivity|]. simpl. unfold step_prov. rewrite Hj, PC, (L1 p H3). discriminate.
         * exists (LDone j). split; [reflexivity|]. simpl. unfold step_prov. rewrite Hj, PC. discriminate.
@@ -677,13 +703,14 @@ Section Liveness.
   (* which caller positions a progress step can lead to *)
   Lemma step_caller_start l s s' :
     progress l = true -> step l s = Some s' ->
-    (in_start (s_caller s) = true \/ s_caller s = CRunning) ->
-    (in_start (s_caller s') = true \/ s_caller s' = CRunning).
+    (in_start (s_start s) = true \/ s_start s = CRunning) ->
+    (in_start (s_start s') = true \/ s_start s' = CRunning).
   Proof.
     intros Hp Hst Hc. destruct l; simpl in Hp; try discriminate; simpl in Hst;
       unfold step_prov in Hst;
       repeat match type of Hst with
-             | context [match s_caller s with _ => _ end] => destruct (s_caller s) eqn:C
+             | context [match s_start s with _ => _ end] => destruct (s_start s) eqn:C
+             | context [match s_stop s with _ => _ end] => destruct (s_stop s) eqn:T
              | context [match nth_error ?l ?i with _ => _ end] => destruct (nth_error l i) as [p|] eqn:N
              | context [match p_inflight ?p with _ => _ end] => destruct (p_inflight p)
              | context [match p_kind ?p with _ => _ end] => destruct (p_kind p)
@@ -696,13 +723,14 @@ Section Liveness.
 
   Lemma step_caller_stop l s s' :
     progress l = true -> step l s = Some s' ->
-    (in_stop (s_caller s) = true \/ s_caller s = CStopped) ->
-    (in_stop (s_caller s') = true \/ s_caller s' = CStopped).
+    (in_stop (s_stop s) = true \/ s_stop s = CStopped) ->
+    (in_stop (s_stop s') = true \/ s_stop s' = CStopped).
   Proof.
     intros Hp Hst Hc. destruct l; simpl in Hp; try discriminate; simpl in Hst;
       unfold step_prov in Hst;
       repeat match type of Hst with
-             | context [match s_caller s with _ => _ end] => destruct (s_caller s) eqn:C
+             | context [match s_stop s with _ => _ end] => destruct (s_stop s) eqn:C
+             | context [match s_start s with _ => _ end] => destruct (s_start s) eqn:T
              | context [match nth_error ?l ?i with _ => _ end] => destruct (nth_error l i) as [p|] eqn:N
              | context [match p_inflight ?p with _ => _ end] => destruct (p_inflight p)
              | context [match p_kind ?p with _ => _ end] => destruct (p_kind p)
@@ -715,8 +743,8 @@ Section Liveness.
 
   Lemma run_caller_start ls s s' :
     progress_run ls -> run ls s = Some s' ->
-    (in_start (s_caller s) = true \/ s_caller s = CRunning) ->
-    (in_start (s_caller s') = true \/ s_caller s' = CRunning).
+    (in_start (s_start s) = true \/ s_start s = CRunning) ->
+    (in_start (s_start s') = true \/ s_start s' = CRunning).
   Proof.
     revert s; induction ls as [|l t IH]; intros s Hp Hr Hc; simpl in Hr.
     - inversion Hr; subst; exact Hc.
@@ -725,8 +753,8 @@ Section Liveness.
   Qed.
   Lemma run_caller_stop ls s s' :
     progress_run ls -> run ls s = Some s' ->
-    (in_stop (s_caller s) = true \/ s_caller s = CStopped) ->
-    (in_stop (s_caller s') = true \/ s_caller s' = CStopped).
+    (in_stop (s_stop s) = true \/ s_stop s = CStopped) ->
+    (in_stop (s_stop s') = true \/ s_stop s' = CStopped).
   Proof.
     revert s; induction ls as [|l t IH]; intros s Hp Hr Hc; simpl in Hr.
     - inversion Hr; subst; exact Hc.
@@ -737,9 +765,9 @@ Section Liveness.
   (* Start: every run of the server's own steps from a state inside Start is bounded by the measure,
      and when nothing more can happen Start has returned *)
   Lemma start_terminates kinds w0 s ls s' :
-    (0 <= w0)%Z -> reachable kinds w0 s -> in_start (s_caller s) = true ->
+    (0 <= w0)%Z -> reachable kinds w0 s -> in_start (s_start s) = true ->
     progress_run ls -> run ls s = Some s' ->
-    length ls <= measure s /\ (~ enabled s' -> s_caller s' = CRunning).
+    length ls <= measure s /\ (~ enabled s' -> s_start s' = CRunning).
   Proof.
     intros Hw Hr Hc Hp Hrun. pose proof (reachable_inv _ _ _ _ _ Hw Hr) as HI.
     split.
@@ -751,10 +779,10 @@ Section Liveness.
   (* Stop: the same, with requests finishing counted as progress; when neither the server nor a request
      in flight can take a step, Stop has returned *)
   Lemma stop_terminates kinds s ls s' :
-    reachable kinds 0%Z s -> in_stop (s_caller s) = true ->
+    reachable kinds 0%Z s -> in_stop (s_stop s) = true ->
     progress_run ls -> run ls s = Some s' ->
     length ls <= measure s /\
-    (~ enabled s' -> (forall i, step (LReqEnd i) s' = None) \/ s_ctx s' = true -> s_caller s' = CStopped).
+    (~ enabled s' -> (forall i, step (LReqEnd i) s' = None) \/ s_ctx s' = true -> s_stop s' = CStopped).
   Proof.
     intros Hr Hc Hp Hrun. assert (Hw : (0 <= 0)%Z) by lia.
     pose proof (reachable_inv _ _ _ _ _ Hw Hr) as HI.
@@ -782,7 +810,7 @@ Section Converse.
   (* L3c: Shutdown / GracefulStop returns ONLY when nothing is in flight or the context has ended *)
   Hypothesis L3c : forall p c, drain_ret p c = true -> p_inflight p = 0 \/ c = true.
 
-  Definition drained_by (c : cpc) (j : nat) : bool :=
+  Definition drained_by (c : tpc) (j : nat) : bool :=
     match c with
     | CStopCall i | CStopDrain i => j <? i
     | CStopWait | CStopped => true
@@ -792,13 +820,16 @@ Section Converse.
   Definition Inv2 (s : st) : Prop :=
     forall j p, nth_error (s_provs s) j = Some p ->
       ((p_pc p = GReturned \/ p_pc p = GDone) -> p_shut p = true) /\
-      (s_ctx s = false -> drained_by (s_caller s) j = true -> p_inflight p = 0) /\
+      (s_ctx s = false -> drained_by (s_stop s) j = true -> p_inflight p = 0) /\
       (pre_signal (p_pc p) = true -> p_inflight p = 0).
+
+  Lemma inv2_start s c' : Inv2 s -> Inv2 (with_start c' s).
+  Proof. intros H. exact H. Qed.
 
   Lemma inv2_caller s c' :
     Inv2 s ->
-    (forall j, j < length (s_provs s) -> drained_by c' j = true -> drained_by (s_caller s) j = true) ->
-    Inv2 (with_caller c' s).
+    (forall j, j < length (s_provs s) -> drained_by c' j = true -> drained_by (s_stop s) j = true) ->
+    Inv2 (with_stop c' s).
   Proof.
     intros H2 Hd j q Hj. simpl in *. destruct (H2 j q Hj) as (A & B & D). repeat split; auto.
     intros X Y. apply B; auto. apply Hd; auto. eapply nth_error_lt; eauto.
@@ -807,7 +838,7 @@ Section Converse.
   Lemma inv2_prov s i p p' :
     Inv2 s -> nth_error (s_provs s) i = Some p ->
     ((p_pc p' = GReturned \/ p_pc p' = GDone) -> p_shut p' = true) ->
-    (s_ctx s = false -> drained_by (s_caller s) i = true -> p_inflight p' = 0) ->
+    (s_ctx s = false -> drained_by (s_stop s) i = true -> p_inflight p' = 0) ->
     (pre_signal (p_pc p') = true -> p_inflight p' = 0) ->
     Inv2 (with_provs (upd_nth i (fun _ => p') (s_provs s)) s).
   Proof.
@@ -824,14 +855,15 @@ Section Converse.
   Lemma step_inv2 kinds w0 l s s' :
     Inv kinds w0 s -> Inv2 s -> step l s = Some s' -> Inv2 s'.
   Proof.
-    intros HI H2 Hst. pose proof HI as [_ Hl _ _ Hi].
+    intros HI H2 Hst. pose proof HI as [_ Hl _ _ (_ & Hi & _)].
     destruct l; simpl in Hst; unfold step_prov in Hst.
     - (* LCallStart *)
-      destruct (s_caller s) eqn:C; try discriminate. injection Hst as <-.
-      apply inv2_caller; auto. intros j _. destruct (0 <? length (s_provs s)); discriminate.
+      destruct (s_start s) eqn:C; try discriminate. injection Hst as <-. apply inv2_start; auto.
     - (* LCallStop *)
-      destruct (s_caller s) eqn:C; try discriminate. injection Hst as <-.
-      apply inv2_caller; auto. intros j Hj. destruct (Nat.ltb_spec 0 (length (s_provs s))); simpl; [discriminate|lia].
+      destruct (s_stop s) eqn:T; try discriminate.
+      assert (E : s' = with_stop (if 0 <? length (s_provs s) then CStopCall 0 else CStopWait) s)
+        by (destruct (s_start s); try discriminate; injection Hst as <-; reflexivity).
+      subst s'. apply inv2_caller; auto. intros j Hj. destruct (Nat.ltb_spec 0 (length (s_provs s))); simpl; [discriminate|lia].
     - (* LCtxExpire *)
       injection Hst as <-. intros j q Hj. simpl in *. destruct (H2 j q Hj) as (A & B & D).
       repeat split; auto. discriminate.
@@ -844,7 +876,7 @@ Section Converse.
       eapply inv2_prov; eauto; simpl; rewrite ?PC.
       + intros [E|E]; discriminate.
       + intros X Y. exfalso. rewrite H3 in G2.
-        destruct (s_caller s); simpl in *; try discriminate; bcases; try discriminate; try lia.
+        destruct (s_stop s); simpl in *; try discriminate; bcases; try discriminate; try lia.
       + discriminate.
     - (* LReqEnd *)
       destruct (nth_error (s_provs s) i) as [p|] eqn:N; [|discriminate].
@@ -854,24 +886,23 @@ Section Converse.
       + intros X Y. specialize (B X Y). lia.
       + intros X. specialize (D X). lia.
     - (* LAddStop *)
-      destruct (s_caller s) eqn:C; try discriminate. injection Hst as <-.
-      apply inv2_caller; [apply inv2_addstop; auto|]. intros j _. discriminate.
+      destruct (s_start s) eqn:C; try discriminate. injection Hst as <-.
+      apply inv2_start. apply inv2_addstop; auto.
     - (* LAddStart *)
-      destruct (s_caller s) eqn:C; try discriminate. injection Hst as <-.
-      apply inv2_caller; [apply inv2_addstart; auto|]. intros j _. discriminate.
+      destruct (s_start s) eqn:C; try discriminate. injection Hst as <-.
+      apply inv2_start. apply inv2_addstart; auto.
     - (* LGo *)
-      destruct (s_caller s) eqn:C; try discriminate.
+      destruct (s_start s) eqn:C; try discriminate.
       destruct (nth_error (s_provs s) i) as [p|] eqn:N; [|discriminate].
       destruct (p_pc p) eqn:PC; try discriminate. injection Hst as <-.
       destruct (H2 i p N) as (A & B & D). rewrite PC in D.
-      apply inv2_caller.
-      + eapply inv2_prov; eauto; simpl;
+      apply inv2_start.
+      eapply inv2_prov; eauto; simpl;
           first [ intros [E|E]; discriminate | intros _ _; apply D; reflexivity | intros _; apply D; reflexivity ].
-      + intros j _. unfold next_start. destruct (S i <? length (s_provs s)); discriminate.
     - (* LStartReturn *)
-      destruct (s_caller s) eqn:C; try discriminate.
+      destruct (s_start s) eqn:C; try discriminate.
       destruct (Z.eqb (s_startwg s) 0); [|discriminate]. injection Hst as <-.
-      apply inv2_caller; auto. intros j _. discriminate.
+      apply inv2_start; auto.
     - (* LListen *)
       destruct (nth_error (s_provs s) i) as [p|] eqn:N; [|discriminate].
       destruct (p_kind p); try discriminate. destruct (p_pc p) eqn:PC; try discriminate. injection Hst as <-.
@@ -900,7 +931,7 @@ Section Converse.
       destruct (H2 i p N) as (A & B & D).
       apply inv2_addstop. eapply inv2_prov; eauto; simpl; try discriminate; try (intros _; apply A; left; reflexivity).
     - (* LStopCall *)
-      destruct (s_caller s) eqn:C; try discriminate.
+      destruct (s_stop s) eqn:C; try discriminate.
       destruct (nth_error (s_provs s) i) as [p|] eqn:N; [|discriminate]. injection Hst as <-.
       destruct (H2 i p N) as (A & B & D).
       assert (E1 : p_pc (set_shut (if pc_eqb (p_pc p) GServing then set_bound false p else p)) = p_pc p)
@@ -911,14 +942,14 @@ Section Converse.
       + eapply inv2_prov; eauto; rewrite ?E1, ?E2; auto.
       + intros j _. simpl. rewrite C. simpl. auto.
     - (* LForce *)
-      destruct (s_caller s) eqn:C; try discriminate.
+      destruct (s_stop s) eqn:C; try discriminate.
       destruct (nth_error (s_provs s) i) as [p|] eqn:N; [|discriminate].
       destruct (p_kind p); try discriminate. destruct (p_inflight p) eqn:F; try discriminate.
       destruct (s_ctx s) eqn:X; [|discriminate]. injection Hst as <-.
       destruct (H2 i p N) as (A & B & D).
       eapply inv2_prov; eauto.
     - (* LStopProvReturn *)
-      destruct (s_caller s) eqn:C; try discriminate.
+      destruct (s_stop s) eqn:C; try discriminate.
       destruct (nth_error (s_provs s) i) as [p|] eqn:N; [|discriminate].
       destruct (drain_ret p (s_ctx s)) eqn:DR; [|discriminate]. injection Hst as <-.
       intros j q Hj. simpl in *. rewrite nth_error_upd_nth in Hj.
@@ -930,7 +961,7 @@ Section Converse.
       + apply B; auto. pose proof (nth_error_lt _ _ _ Hq). try rewrite C in Hi. simpl in Hi.
         unfold next_stop in Y. destruct (Nat.ltb_spec (S i) (length (s_provs s))); simpl in Y; bcases; try discriminate; try lia; auto.
     - (* LStopReturn *)
-      destruct (s_caller s) eqn:C; try discriminate.
+      destruct (s_stop s) eqn:C; try discriminate.
       destruct (Z.eqb (s_stopwg s) 0); [|discriminate]. injection Hst as <-.
       apply inv2_caller; auto. intros j _ _. rewrite C. reflexivity.
   Qed.
@@ -954,13 +985,13 @@ Section Converse.
 
   (* Start has returned, Stop not yet called, nothing more to do: every provider is serving on an open socket *)
   Lemma listeners_up kinds w0 s :
-    (0 <= w0)%Z -> reachable kinds w0 s -> s_caller s = CRunning ->
+    (0 <= w0)%Z -> reachable kinds w0 s -> s_start s = CRunning -> s_stop s = TIdle ->
     (forall l, is_env l = false -> step l s = None) ->
     forall j p, nth_error (s_provs s) j = Some p -> p_pc p = GServing /\ p_bound p = true.
   Proof.
-    intros Hw Hr Hc Hq j p Hj.
+    intros Hw Hr Hc Ht Hq j p Hj.
     destruct (reachable_inv _ _ _ _ _ Hw Hr) as [_ Hl _ _ _].
-    destruct (Hl j p Hj) as (_ & H2 & H3 & _ & H5 & _). rewrite Hc in *. simpl in *. specialize (H2 eq_refl).
+    destruct (Hl j p Hj) as (_ & H2 & H3 & _ & H5 & _). rewrite Hc, Ht in *. simpl in *. specialize (H2 eq_refl).
     destruct (reachable_inv2 _ _ _ Hw Hr j p Hj) as (A & _).
     destruct (p_pc p) eqn:PC; try discriminate.
     - exfalso. specialize (Hq (LServe j) eq_refl). simpl in Hq. unfold step_prov in Hq. rewrite Hj, PC in Hq.
@@ -972,7 +1003,7 @@ Section Converse.
 
   (* Stop returned before its context ended: no request is in flight any more on any provider *)
   Lemma stop_waited_for_inflight kinds w0 s :
-    (0 <= w0)%Z -> reachable kinds w0 s -> s_caller s = CStopped -> s_ctx s = false ->
+    (0 <= w0)%Z -> reachable kinds w0 s -> s_stop s = CStopped -> s_ctx s = false ->
     forall j p, nth_error (s_provs s) j = Some p -> p_inflight p = 0.
   Proof.
     intros Hw Hr Hc Hx j p Hj. destruct (reachable_inv2 _ _ _ Hw Hr j p Hj) as (_ & B & _).
